@@ -882,3 +882,26 @@ UNITS["v_crud_get"] = dict(
         safety_id="C18.get.safety", safety_text="the path walk terminates (decreases the remaining path)",
     )],
 )
+
+UNITS["v_block_types"] = dict(
+    prop=["C01", "C02"], tier="q", prelude=["optypes.rs"],
+    fns=[dict(
+        id="block_type_info", file=EXPR + "block.rs", impl="impl Expression for Block", name="type_info",
+        orig_sig="fn type_info(&self, state: &TypeState) -> TypeInfo",
+        wrap=("impl Block {", "}"), sig="#[verifier::loop_isolation(false)]\npub fn type_info(&self, state: &TypeStateB) -> (r: TypeInfoB)",
+        rewrites=[dict(**{"from": "for expr in &self.inner {", "to": "for expr in it: self.inner.iter() {", "count": 1, "why": "Verus for-loop syntax with a named iterator"}),
+                  dict(**{"from": "let mut returns = Kind::never();", "to": "let mut returns = KindR::never();", "count": 1, "why": "prelude name of the returns kind"}),
+                  dict(**{"from": "TypeInfo::new(", "to": "TypeInfoB::new(", "count": 1, "why": "prelude name"})],
+        loops={"_count": 1, 0: dict(spec="invariant state == state_before(self.inner@, *old_state, it.index@ as int),\n    it.index@ > 0 ==> result == type_of(self.inner@, *old_state, it.index@ - 1),\n    it.index@ == 0 ==> result.m@ == set![NULL],\n    after_never_expression == !reachable(self.inner@, *old_state, it.index@ as int),\n    forall|j: int| 0 <= j < it.index@ && reachable(self.inner@, *old_state, j) && (#[trigger] type_of(self.inner@, *old_state, j)).fall@ ==> fallible,\n    forall|j: int| 0 <= j < it.index@ ==> (#[trigger] type_of(self.inner@, *old_state, j)).spec_returns().subset_of(returns.m@),")},
+        body_start="let ghost old_state = state;",
+        ensures=[
+            ("C01.block.kind_is_last", "a non-empty block has the kind of its last expression (an empty one is null)",
+             "self.inner@.len() > 0 ==> r.result.m@ == type_of(self.inner@, *state, self.inner@.len() - 1).m@"),
+            ("C02.block.fallible_if_any_reachable_fallible", "a block is fallible as soon as one of its reachable expressions (none before it is typed never) is fallible",
+             "forall|j: int| 0 <= j < self.inner@.len() && reachable(self.inner@, *state, j) && (#[trigger] type_of(self.inner@, *state, j)).fall@ ==> r.result.fall@"),
+            ("C01.block.returns_all", "every `return` type of an expression in the block is part of the block's return type",
+             "forall|j: int| 0 <= j < self.inner@.len() ==> (#[trigger] type_of(self.inner@, *state, j)).spec_returns().subset_of(r.result.spec_returns())"),
+        ],
+        safety_id="C01.block_type_info.safety",
+    )],
+)
